@@ -113,6 +113,10 @@ fn main() {
                         writeln!(out, "O {n} panic: {msg}").unwrap();
                     }
                 }
+                if prop == "C01" {
+                    // C01 counts a dying process as a failure of the first case without a result
+                    out.flush().unwrap();
+                }
             }
         }
         _ => {
